@@ -836,4 +836,176 @@ theorem within_of_check (cfg : LCfg) (s : LSt) (x : Val) (h : checkLimits cfg s 
       · rw [hm] at h1; cases h1
       · rw [← hab]; exact h1
 
+/-! ## the labels of a float/enum pair -/
+
+theorem lookup_setI (l : List (Int × Val)) (k : Int) (v : Val) (k' : Int) :
+    (setI l k v).lookup k' = if k' = k then some v else l.lookup k' := by
+  induction l with
+  | nil =>
+    by_cases h : k' = k
+    · subst h; simp [setI]
+    · have : (k' == k) = false := by simpa using h
+      simp [setI, List.lookup, this, h]
+  | cons e t ih =>
+    obtain ⟨k0, x⟩ := e
+    simp only [setI]
+    by_cases h0 : k0 = k
+    · subst h0
+      simp only [if_true, List.lookup]
+      by_cases h : k' = k0
+      · simp [h]
+      · have : (k' == k0) = false := by simpa using h
+        simp [this, h]
+    · simp only [h0, if_false, List.lookup]
+      by_cases h : k' = k0
+      · subst h
+        simp [h0]
+      · have : (k' == k0) = false := by simpa using h
+        simp only [this]
+        exact ih
+
+theorem mem_keys_setI (l : List (Int × Val)) (k : Int) (v : Val) (k' : Int) :
+    k' ∈ (setI l k v).map Prod.fst ↔ k' = k ∨ k' ∈ l.map Prod.fst := by
+  induction l with
+  | nil => simp [setI]
+  | cons e t ih =>
+    obtain ⟨k0, x⟩ := e
+    simp only [setI]
+    by_cases h0 : k0 = k
+    · subst h0
+      simp only [if_true, List.map_cons, List.mem_cons]
+      constructor
+      · intro h; exact Or.inr h
+      · intro h
+        rcases h with h | h
+        · exact Or.inl h
+        · exact h
+    · simp only [h0, if_false, List.map_cons, List.mem_cons, ih]
+      constructor
+      · intro h
+        rcases h with h | h | h
+        · exact Or.inr (Or.inl h)
+        · exact Or.inl h
+        · exact Or.inr (Or.inr h)
+      · intro h
+        rcases h with h | h | h
+        · exact Or.inr (Or.inl h)
+        · exact Or.inl h
+        · exact Or.inr (Or.inr h)
+
+theorem nodup_setI (l : List (Int × Val)) (k : Int) (v : Val) (h : (l.map Prod.fst).Nodup) :
+    ((setI l k v).map Prod.fst).Nodup := by
+  induction l with
+  | nil => simp [setI]
+  | cons e t ih =>
+    obtain ⟨k0, x⟩ := e
+    simp only [List.map_cons, List.nodup_cons] at h
+    simp only [setI]
+    by_cases h0 : k0 = k
+    · simp only [h0, if_true, List.map_cons, List.nodup_cons]
+      rw [← h0]; exact h
+    · simp only [h0, if_false, List.map_cons, List.nodup_cons]
+      refine ⟨?_, ih h.2⟩
+      intro hm
+      rcases (mem_keys_setI t k v k0).1 hm with h1 | h1
+      · exact h0 h1
+      · exact h.1 h1
+
+theorem setI_ne_nil (l : List (Int × Val)) (k : Int) (v : Val) : setI l k v ≠ [] := by
+  cases l with
+  | nil => simp [setI]
+  | cons e t =>
+    simp only [setI]
+    split <;> simp
+
+theorem collectLabels_nodup : ∀ (specs : List LabelSpec) (next : Int) (ed : List (String × Int)) (vd : List (Int × Val)),
+    (vd.map Prod.fst).Nodup → ((collectLabels specs next ed vd).2.map Prod.fst).Nodup := by
+  intro specs
+  induction specs with
+  | nil => intro _ _ _ h; exact h
+  | cons e es ih =>
+    intro next ed vd h
+    simp only [collectLabels]
+    apply ih
+    cases e.value with
+    | none => exact h
+    | some v => exact nodup_setI _ _ _ h
+
+/-- the second loop keeps the indices unique, keeps every index that had a value, and gives every member of the enum one -/
+theorem fillValues_spec (derive : String → Option Val) : ∀ (ed : List (String × Int)) (vd vd' : List (Int × Val)),
+    fillValues derive ed vd = some vd' → (vd.map Prod.fst).Nodup →
+    (vd'.map Prod.fst).Nodup ∧ (∀ i, (vd.lookup i).isSome = true → (vd'.lookup i).isSome = true) ∧
+    (∀ e ∈ ed, (vd'.lookup e.2).isSome = true) ∧ (vd ≠ [] → vd' ≠ []) := by
+  intro ed
+  induction ed with
+  | nil =>
+    intro vd vd' h hn
+    simp only [fillValues, Option.some.injEq] at h
+    subst h
+    exact ⟨hn, fun _ hi => hi, fun _ he => (nomatch he), fun h => h⟩
+  | cons e rest ih =>
+    intro vd vd' h hn
+    obtain ⟨lab, i⟩ := e
+    simp only [fillValues] at h
+    by_cases hi : (vd.lookup i).isSome = true
+    · simp only [hi, if_true] at h
+      obtain ⟨h1, h2, h3, h4⟩ := ih vd vd' h hn
+      refine ⟨h1, h2, ?_, h4⟩
+      intro e he
+      rcases List.mem_cons.1 he with he | he
+      · subst he; exact h2 i hi
+      · exact h3 e he
+    · simp only [hi, Bool.false_eq_true, if_false] at h
+      cases hd : derive lab with
+      | none => simp [hd] at h
+      | some v =>
+        simp only [hd] at h
+        obtain ⟨h1, h2, h3, h4⟩ := ih (setI vd i v) vd' h (nodup_setI vd i v hn)
+        have hkeep : ∀ j, (vd.lookup j).isSome = true → ((setI vd i v).lookup j).isSome = true := by
+          intro j hj
+          rw [lookup_setI]
+          by_cases hji : j = i
+          · simp [hji]
+          · simp [hji, hj]
+        refine ⟨h1, fun j hj => h2 j (hkeep j hj), ?_, fun _ => h4 (setI_ne_nil vd i v)⟩
+        intro e he
+        rcases List.mem_cons.1 he with he | he
+        · subst he
+          exact h2 i (by rw [lookup_setI]; simp)
+        · exact h3 e he
+
+theorem minVal_le : ∀ (cs : List (Int × Val)) (m : Val), minVal cs m ≤ m ∧ ∀ c ∈ cs, minVal cs m ≤ c.2 := by
+  intro cs
+  induction cs with
+  | nil => intro m; exact ⟨Int.le_refl _, fun _ h => nomatch h⟩
+  | cons c cs ih =>
+    intro m
+    simp only [minVal]
+    obtain ⟨h1, h2⟩ := ih (if c.2 < m then c.2 else m)
+    have hm : (if c.2 < m then c.2 else m) ≤ m ∧ (if c.2 < m then c.2 else m) ≤ c.2 := by
+      by_cases hlt : c.2 < m
+      · simp only [hlt, if_true]; exact ⟨Int.le_of_lt hlt, Int.le_refl _⟩
+      · simp only [hlt, if_false]; exact ⟨Int.le_refl _, Int.not_lt.mp hlt⟩
+    refine ⟨Int.le_trans h1 hm.1, fun c' hc' => ?_⟩
+    rcases List.mem_cons.1 hc' with h | h
+    · subst h; exact Int.le_trans h1 hm.2
+    · exact h2 c' h
+
+theorem le_maxVal : ∀ (cs : List (Int × Val)) (m : Val), m ≤ maxVal cs m ∧ ∀ c ∈ cs, c.2 ≤ maxVal cs m := by
+  intro cs
+  induction cs with
+  | nil => intro m; exact ⟨Int.le_refl _, fun _ h => nomatch h⟩
+  | cons c cs ih =>
+    intro m
+    simp only [maxVal]
+    obtain ⟨h1, h2⟩ := ih (if m < c.2 then c.2 else m)
+    have hm : m ≤ (if m < c.2 then c.2 else m) ∧ c.2 ≤ (if m < c.2 then c.2 else m) := by
+      by_cases hlt : m < c.2
+      · simp only [hlt, if_true]; exact ⟨Int.le_of_lt hlt, Int.le_refl _⟩
+      · simp only [hlt, if_false]; exact ⟨Int.le_refl _, Int.not_lt.mp hlt⟩
+    refine ⟨Int.le_trans hm.1 h1, fun c' hc' => ?_⟩
+    rcases List.mem_cons.1 hc' with h | h
+    · subst h; exact Int.le_trans hm.2 h1
+    · exact h2 c' h
+
 end Frappy.ExtParams
